@@ -191,6 +191,11 @@ func loadForModule(module string, pkgs []string) (*program, error) {
 		"github.com/wI2L/jsondiff",
 		"context",
 		"errors",
+		// small pure-Go standard packages that code under test may start to use
+		"hash/fnv",
+		"container/list",
+		"container/heap",
+		"container/ring",
 	}
 	if module == "serverreal" {
 		// the real server/mongodb code on the driver model (engine/mongo.go): option builders and BSON constructors are executed
